@@ -166,7 +166,7 @@ def exec (s : Shared) (t : Thread) (others : Nat) : PC → Shared × Thread
   -- restart thread: counter snapshot, then Shutdown (the actor stops running); wait loop, then init
   -- (actor runs again); restart counter; PostStart = message 0
   | .rLoad => ({ s with running := false }, { t with pc := some .rWait })
-  | .rWait => if s.sched = .processing then (s, t) else ({ s with running := true }, { t with pc := some .rCount })
+  | .rWait => if s.sched = .idle then ({ s with running := true }, { t with pc := some .rCount }) else (s, t)
   | .rCount => (s, { t with pc := some (.sE0 0) })
 
 def sumBy (f : Thread → Nat) : List Thread → Nat
